@@ -349,6 +349,30 @@ func C12(tier Tier) int {
 		checkString(ws[0], string([]byte{c}))
 	}
 	Parallel(25, func(wk, i int) { rec(ws[wk], []byte{sigma[i/5], sigma[i%5]}, L-2) })
+	// second alphabet: bytes outside ASCII, control bytes and the characters next to the hexadecimal
+	// ranges ('/', ':', 'G', 'g', '`'), length 0..L2
+	{
+		sigma2 := []byte{'@', 'a', 'f', 0xff, 0x80, 0xc3, 0x00, '/', ':', 'G', 'g', '`'}
+		L2 := 5
+		if tier.Thorough() {
+			L2 = 6
+		}
+		var rec2 func(e *Enum, s []byte, depth int)
+		rec2 = func(e *Enum, s []byte, depth int) {
+			checkString(e, string(s))
+			if depth == 0 {
+				return
+			}
+			for _, c := range sigma2 {
+				rec2(e, append(s, c), depth-1)
+			}
+		}
+		n2 := len(sigma2)
+		Parallel(n2*n2, func(wk, i int) { rec2(ws[wk], []byte{sigma2[i/n2], sigma2[i%n2]}, L2-2) })
+		for _, c := range sigma2 {
+			checkString(ws[0], string([]byte{c}))
+		}
+	}
 	ws[0].Sample(map[string]interface{}{"string": "x@0a@@A0", "reference": "function x, args [0a, <empty>, a0]"})
 	// (ii) ParseESDTTransfers over all argument lists of bounded length
 	pool := c12Pool()
@@ -466,7 +490,7 @@ func C12(tier Tier) int {
 		if tier.Thorough() {
 			depth = 8
 		}
-		const nOps = 8
+		const nOps = 9
 		var seq []int
 		var walk func()
 		walk = func() {
@@ -498,6 +522,12 @@ func C12(tier Tier) int {
 					b = b.Clear()
 					mfn, melems = "", []string{}
 					clears++
+				case 8:
+					// render in the middle of the sequence (a cached rendering must not survive later
+					// operations)
+					if got, want := b.ToString(), renderModel(mfn, melems); got != want {
+						rt.Fail(P, "roundtrip", "builder-sequence", fmt.Sprintf("one builder in the middle of the operations %v produces %q, the operations so far describe %q", seq, got, want), "case", fmt.Sprintf("ops%v", seq))
+					}
 				case 7:
 					b.SetLast("0b")
 					if len(melems) == 0 {
@@ -517,7 +547,7 @@ func C12(tier Tier) int {
 			got := b.ToString()
 			id := fmt.Sprintf("ops%v", seq)
 			if got != want || string(b.ToBytes()) != want {
-				rt.Fail(P, "roundtrip", "builder-sequence", fmt.Sprintf("one builder after the operations %v (0/1 Func, 2-4 Bytes, 5 Clear, 6 b=Clear, 7 SetLast) produces %q, the operations describe %q", seq, got, want), "case", id)
+				rt.Fail(P, "roundtrip", "builder-sequence", fmt.Sprintf("one builder after the operations %v (0/1 Func, 2-4 Bytes, 5 Clear, 6 b=Clear, 7 SetLast, 8 ToString) produces %q, the operations describe %q", seq, got, want), "case", id)
 			}
 			last := ""
 			if len(melems) > 0 {
@@ -614,4 +644,12 @@ func C12(tier Tier) int {
 		fmt.Sprintf("exhaustive: every string of length 0..%d over {x,@,0,a,A} (%d strings) into the three string parsers against a reference tokenizer; ParseESDTTransfers for 4 function names x sender=/!=receiver x every argument list of length 0..%d over a %d-item adversarial pool (wrap-around counts, payloads with/without Value, truncated); round trips of %d function names x %d argument lists through the tx-data builder and the built-in encoder rule, deploy data (8 flag combinations) and storage-update lists of length 1..3. A class is distinct by (parser, accept/reject, result size)", L, total, maxLen, len(pool), len(names), len(argLists)),
 		[]string{"function names contain no '@' (excluded by the statement); an empty first storage offset is not representable (leading '@' is a separator prefix) and is excluded from the round-trip domain", "the reference tokenizer is trusted"},
 		true, nil, []string{"call:oktrue:args2", "call:okfalse:args0", "call:canonical:args2", "deploy:oktrue", "storage:oktrue:n1", "rt-typed"}, append(ws, rt)...)
+}
+
+func renderModel(fn string, elems []string) string {
+	s := fn
+	for _, e := range elems {
+		s += "@" + e
+	}
+	return s
 }
